@@ -211,33 +211,40 @@ def _depth_profile(toks):
 
 
 def _rebalance(m, tmpl):
-    """slide matches over equal neighbouring tokens so that inserted runs are bracket-balanced"""
+    """Make inserted runs bracket-balanced: a repo closer must be matched with the first closer of the template
+    that is unbalanced inside the would-be inserted run, a repo opener with the last unclosed opener."""
     n = len(m)
-    changed = True
-    guard = 0
-    while changed and guard < 10000:
+    for _ in range(20000):
         changed = False
-        guard += 1
-        for i in range(n):
-            j = m[i]
+        for i in range(n + 1):
+            j = m[i] if i < n else len(tmpl)
             prev = m[i - 1] if i > 0 else -1
-            nxt = m[i + 1] if i + 1 < n else len(tmpl)
-            # run before this match: tmpl[prev+1 : j]
-            run = tmpl[prev + 1:j]
-            if run:
-                d, lo = _depth_profile(run)
-                if d > 0 and j + 1 < nxt and tmpl[j + 1].text == tmpl[j].text:
-                    # run has unclosed opener: move the match one to the right
-                    m[i] = j + 1
-                    changed = True
-                    continue
-            run_after = tmpl[j + 1:nxt]
-            if run_after:
-                d, lo = _depth_profile(run_after)
-                if lo < 0 and j - 1 > prev and tmpl[j - 1].text == tmpl[j].text:
-                    m[i] = j - 1
-                    changed = True
-                    continue
+            if j <= prev + 1:
+                continue
+            d = 0
+            first_neg = None
+            stack = []
+            for x in range(prev + 1, j):
+                t = tmpl[x].text
+                if t in lexer.OPEN:
+                    stack.append(x)
+                    d += 1
+                elif t in lexer.CLOSE:
+                    if stack:
+                        stack.pop()
+                    elif first_neg is None:
+                        first_neg = x
+                    d -= 1
+            if first_neg is not None and i < n and tmpl[first_neg].text == tmpl[j].text:
+                m[i] = first_neg
+                changed = True
+                break
+            if stack and i > 0 and tmpl[stack[-1]].text == tmpl[prev].text:
+                m[i - 1] = stack[-1]
+                changed = True
+                break
+        if not changed:
+            break
     return m
 
 
@@ -378,22 +385,41 @@ def _close(tx, i):
 # ----------------------------------------------------------------------------------------------
 
 def insertions(base, tmpl, m, what):
-    """ins[p] = list of tokens inserted before base token p (p == len(base): after the last)."""
-    ins = {}
-    prev = -1
-    forms = []
-    for i in range(len(base) + 1):
-        j = m[i] if i < len(base) else len(tmpl)
-        if j > prev + 1:
-            run = tmpl[prev + 1:j]
-            prev_text = base[i - 1].text if i > 0 else ''
-            next_text = base[i].text if i < len(base) else ''
-            if i >= 2 and prev_text == '>' and False:
-                pass
-            forms += ghost_form(run, prev_text, next_text, what)
-            ins[i] = run
-        prev = j
-    return ins, forms
+    """ins[p] = list of tokens inserted before base token p (p == len(base): after the last).
+    When a run is not of a ghost form, equivalent alignments are tried (the run is rotated over an equal token)."""
+    tried = set()
+    for _ in range(400):
+        ins = {}
+        prev = -1
+        forms = []
+        failure = None
+        for i in range(len(base) + 1):
+            j = m[i] if i < len(base) else len(tmpl)
+            if j > prev + 1:
+                run = tmpl[prev + 1:j]
+                prev_text = base[i - 1].text if i > 0 else ''
+                next_text = base[i].text if i < len(base) else ''
+                try:
+                    forms += ghost_form(run, prev_text, next_text, what)
+                except WeaveError as e:
+                    failure = (i, prev, j, run, e)
+                    break
+                ins[i] = run
+            prev = j
+        if failure is None:
+            return ins, forms
+        i, prev, j, run, err = failure
+        # rotate left: the run starts with the token the repo token i was matched with
+        if i < len(base) and run[0].text == tmpl[j].text and ('L', i, prev + 1) not in tried:
+            tried.add(('L', i, prev + 1))
+            m[i] = prev + 1
+            continue
+        if i > 0 and run[-1].text == tmpl[prev].text and ('R', i - 1, j - 1) not in tried:
+            tried.add(('R', i - 1, j - 1))
+            m[i - 1] = j - 1
+            continue
+        raise err
+    raise WeaveError('%s: could not find a ghost-form alignment' % what)
 
 
 def transport(base, cur, ins):
